@@ -27,6 +27,7 @@ type SvcSpec struct {
 	ID       int         `json:"id"`
 	Root     string      `json:"root"`
 	Dynamic  bool        `json:"dynamic,omitempty"`
+	Repath   bool        `json:"path_set_twice,omitempty"` // live service only: Path(other) then Path(root)
 	NFilters int         `json:"filters,omitempty"`
 	Routes   []RouteSpec `json:"routes"`
 }
@@ -104,6 +105,11 @@ func BuildRoute(ws *restful.WebService, r RouteSpec, hook *func(int)) *restful.R
 // BuildService creates the WebService with the given routes (in that order).
 func BuildService(s SvcSpec, routes []RouteSpec, hook *func(int)) *restful.WebService {
 	ws := new(restful.WebService)
+	if s.Repath && hook != nil {
+		// a configuration history: the root path is set twice (a shared constructor, then the real
+		// path); only the last call may count. The fresh reference services set it once.
+		ws.Path("/zz/{early}")
+	}
 	ws.Path(s.Root)
 	ws.SetDynamicRoutes(s.Dynamic)
 	for i := 0; i < s.NFilters; i++ {
